@@ -3,7 +3,7 @@
 export GOFLAGS=-mod=mod GOPROXY=off GOSUMDB=off GOTOOLCHAIN=local
 cd "$(dirname "$0")/.."
 for p in "$@"; do
-  for m in m3 m4 m5 m6; do
+  for m in ${SEEDED_MS:-m3 m4 m5 m6}; do
     [ -d /tmp/mut/$p-out/$m ] || continue
     python3 tools/seeded.py import $p $m >/dev/null
     v=$(python3 tools/seeded.py verify $p-$m 2>&1 | grep '"confirmed"')
